@@ -172,7 +172,8 @@ def run(tier, seed):
                          "env": {"CH_RANKS": 3, "CH_SLICE": sl}})
     jobs.append({"kind": "ch", "name": "mapping", "func": "mapping", "role": "decide", "timeout": 300, "env": {}})
     jobs.append({"kind": "ch", "name": "mapping_twin", "func": "mapping_twin", "role": "twin", "timeout": 60, "env": {}})
-    jobs.append({"kind": "ch", "name": "mapping_entries", "func": "mapping_entries", "role": "decide", "timeout": 300, "env": {}})
+    # mapping_entries (ch/defaults.py) goes through the lark directive parser, which does not terminate under CrossHair's tracer
+    # (probe: 300 s, 'Unable to meet precondition'); the same instances are covered by the concrete text comparison below
     jobs.sort(key=lambda j: -j["timeout"])
     for s in text_specs(tier, seed):
         jobs.append({"kind": "text", "spec": s, "name": s["name"]})
